@@ -68,7 +68,7 @@ func runC01(c *Ctx, r *Report) {
 	importFoundation(c, r, "C01", "response-record")
 	importFoundation(c, r, "C01", "queue")
 	importFoundation(c, r, "C01", "transport-pipe")
-	r.Rule("C01/opts-forwarded", "every operation of the generic and network drivers hands its full per-operation option list (prompt stripping, input matching mode, eager) to each option-taking library callee", 8)
+	r.Rule("C01/opts-forwarded", "every operation of the generic and network drivers hands its full per-operation option list (prompt stripping, input matching mode, eager) to each option-taking library callee", 4)
 	checkOptsForwarded(c, r, "C01/opts-forwarded", [][2]string{{"driver/generic", "Driver"}, {"driver/network", "Driver"}})
 	r.Rule("C01/explicit-matcher", "the exact echo matcher tests that the search window contains the input", 1)
 	r.Rule("C01/ansi-bounded", "no unbounded repetition of the escape-sequence pattern admits ESC or newline", 1)
@@ -191,12 +191,25 @@ func checkSendInputWorker(c *Ctx, r *Report) {
 			want = append(want, final)
 		}
 		var probs []string
+		rawFinal := ""
+		if final != "" && len(ioCalls) > 0 {
+			rawFinal = ioCalls[len(ioCalls)-1]
+		}
+		for i := range ioCalls {
+			ioCalls[i] = canonCallKey(ioCalls[i])
+		}
+		for i := range want {
+			want[i] = canonCallKey(want[i])
+		}
 		if strings.Join(ioCalls, " ; ") != strings.Join(want, " ; ") {
 			probs = append(probs, fmt.Sprintf("the exchange performs %v, specified %v", ioCalls, want))
 		}
 		wantB := "channel.Channel.processOut(" + cK + ",nil," + opK + ".StripPrompt)"
 		if final != "" {
-			wantB = "channel.Channel.processOut(" + cK + ",append(nil," + final + "#0)," + opK + ".StripPrompt)"
+			wantB = "channel.Channel.processOut(" + cK + ",append(nil,<final read>#0)," + opK + ".StripPrompt)"
+			if rawFinal != "" {
+				resB = strings.Replace(resB, rawFinal, "<final read>", 1)
+			}
 		}
 		if resB != wantB {
 			probs = append(probs, fmt.Sprintf("the returned bytes are %s, specified %s (only what the final read consumed, post-processed with the StripPrompt setting)", resB, wantB))
@@ -274,6 +287,54 @@ func checkSendInputWorker(c *Ctx, r *Report) {
 			}
 		}
 	})
+	// ... or the choice is made by a helper of the package that is handed the option's value
+	if !okSel {
+		for _, ci := range callInstrs(fn) {
+			h := ci.Common().StaticCallee()
+			if h == nil || h.Pkg != fn.Pkg || h.Object() == nil || h.Object().Exported() || len(h.Blocks) == 0 {
+				continue
+			}
+			var flag *ssa.Parameter
+			for ai, a := range ci.Common().Args {
+				if isFieldLoadNamed(a, "ExactMatchInput") && ai < len(h.Params) {
+					flag = h.Params[ai]
+				}
+			}
+			if flag == nil {
+				continue
+			}
+			exactOK, fuzzyOK, other := false, false, false
+			allInstrs(h, func(in ssa.Instruction) {
+				ret, ok := in.(*ssa.Return)
+				if !ok || len(ret.Results) != 1 {
+					return
+				}
+				onFlag, n := false, 0
+				for _, ec := range edgeConds(ret.Block()) {
+					n++
+					v, neg := unwrapNot(ec.Cond)
+					t := ec.Truth
+					if neg {
+						t = !t
+					}
+					if v == ssa.Value(flag) && t {
+						onFlag = true
+					}
+				}
+				switch boundName(ret.Results[0]) {
+				case "ReadUntilExplicit":
+					exactOK = onFlag && n == 1
+				case "ReadUntilFuzzy":
+					fuzzyOK = !onFlag
+				default:
+					other = true
+				}
+			})
+			if exactOK && fuzzyOK && !other {
+				okSel = true
+			}
+		}
+	}
 	r.Check(okSel, rule, "echo matcher selection", c.Pos(fn.Pos()), "ExactMatchInput -> ReadUntilExplicit, else ReadUntilFuzzy", "the input-matching mode option does not select the exact matcher when set and the fuzzy one otherwise")
 	// SendInput -> SendInputB([]byte(input), opts...)
 	si := c.LookupFunc("channel", "Channel", "SendInput")
@@ -784,7 +845,7 @@ func checkSearchDepth(c *Ctx, r *Report) {
 	}
 	r.Check(okMax, rule, "echo depth is max(PromptSearchDepth, 2*len(input))", c.Pos(gsd.Pos()), "", "getProcessReadBufSearchDepth is not max(promptSearchDepth, 2*inputLen)")
 	// processReadBuf returns a suffix of rb on every path, the whole buffer when it is short
-	pp := EnumeratePaths(c, prb, &dtConfig{IsAtomCall: func(call *ssa.Call) bool { return true }})
+	pp := EnumeratePaths(c, prb, &dtConfig{IsAtomCall: atomsExcept()})
 	okSuffix := len(pp) > 0
 	okWhole := false
 	okSnap, snapMsg := true, ""
